@@ -132,8 +132,109 @@ type c02SegCtx struct {
 	fn                   *ssa.Function
 	out, data, num, last ssa.Value
 	parent               *c02SegCtx
-	call                 *ssa.Call // the call in parent.fn that enters fn
+	call                 *ssa.Call  // the call in parent.fn that enters fn
+	lex                  *c02SegCtx // for a closure: the context of the function it is written in (its captured variables are that function's)
 	depth                int
+}
+
+// c02RoleOf: which of the processor's roles ("out", "data", "num", "last")
+// the value v of ctx.fn plays: the role value itself, a load of a variable
+// that holds it (a parameter captured by a closure lives in a cell), or — in a
+// closure — a load of a captured variable of the enclosing function.
+func c02RoleOf(ctx *c02SegCtx, v ssa.Value) string {
+	if ctx == nil || v == nil {
+		return ""
+	}
+	switch {
+	case v == ctx.out && ctx.out != nil:
+		return "out"
+	case v == ctx.data && ctx.data != nil:
+		return "data"
+	case v == ctx.num && ctx.num != nil:
+		return "num"
+	case v == ctx.last && ctx.last != nil:
+		return "last"
+	}
+	u, ok := v.(*ssa.UnOp)
+	if !ok || u.Op != token.MUL {
+		return ""
+	}
+	switch a := u.X.(type) {
+	case *ssa.FreeVar:
+		if ctx.lex == nil {
+			return ""
+		}
+		return c02RoleOfCell(ctx.lex, resolveFreeVar(a))
+	case *ssa.Alloc:
+		return c02RoleOfCell(ctx, a)
+	}
+	return ""
+}
+
+// c02RoleOfCell: the role of the variable kept in cell (an Alloc of L.fn, or a
+// captured variable of L.fn's own enclosing function).
+func c02RoleOfCell(L *c02SegCtx, cell ssa.Value) string {
+	switch c := cell.(type) {
+	case *ssa.Alloc:
+		role := ""
+		for _, rr := range refs(c) {
+			st, ok := rr.(*ssa.Store)
+			if !ok || st.Addr != ssa.Value(c) || st.Parent() != L.fn {
+				continue
+			}
+			if r := c02RoleOf(L, st.Val); r != "" {
+				if role != "" && role != r {
+					return ""
+				}
+				role = r
+			}
+		}
+		return role
+	case *ssa.FreeVar:
+		if L.lex != nil {
+			return c02RoleOfCell(L.lex, resolveFreeVar(c))
+		}
+	}
+	return ""
+}
+
+// c02HasOpenAt: the call authenticates: its callee does (c02HasOpen), or a
+// function value handed to it (a callback closure) does.
+func c02HasOpenAt(p *Prog, call *ssa.Call) bool {
+	if h := staticCallee(call); h != nil && p.InModule(h) && c02HasOpen(p, h, 0, map[*ssa.Function]bool{}) {
+		return true
+	}
+	for _, a := range call.Call.Args {
+		if _, isSig := a.Type().Underlying().(*types.Signature); !isSig {
+			continue
+		}
+		if t := c02FuncTarget(p, a); t != nil && p.InModule(t) && c02HasOpen(p, t, 0, map[*ssa.Function]bool{}) {
+			return true
+		}
+	}
+	return false
+}
+
+// c02CalledFunc resolves the function a dynamic call in ctx.fn invokes when
+// the called value is a parameter (bound by the caller, e.g. a callback) or a
+// local/captured function value.
+func c02CalledFunc(p *Prog, ctx *c02SegCtx, call *ssa.Call) *ssa.Function {
+	v := call.Call.Value
+	for c := ctx; c != nil; c = c.parent {
+		if t := c02FuncTarget(p, v); t != nil {
+			return t
+		}
+		pa, ok := c02Origin(v).(*ssa.Parameter)
+		if !ok || c.call == nil || pa.Parent() != c.fn {
+			return nil
+		}
+		i := c02ParamIndex(c.fn, pa)
+		if i < 0 || i >= len(c.call.Call.Args) {
+			return nil
+		}
+		v = c.call.Call.Args[i]
+	}
+	return nil
 }
 
 // c02HasOpen: fn (or a same-package function it calls, up to a few levels)
@@ -157,6 +258,12 @@ func c02HasOpen(p *Prog, fn *ssa.Function, depth int, seen map[*ssa.Function]boo
 			found = true
 		}
 	})
+	// … or in a closure it creates (a callback handed to a helper, a local function value)
+	for _, a := range fn.AnonFuncs {
+		if !found && c02HasOpen(p, a, depth+1, seen) {
+			found = true
+		}
+	}
 	return found
 }
 
@@ -223,12 +330,29 @@ func c02CheckSegFn(p *Prog, r *Report, ctx *c02SegCtx, rootName string) {
 			events = append(events, c02SegEvent{call: call, err: callResult(call, 1), res: callResult(call, 0), direct: true})
 			return
 		}
-		h := staticCallee(call)
-		if h == nil || !p.InModule(h) || len(h.Blocks) == 0 || call.Call.IsInvoke() {
+		if call.Call.IsInvoke() {
 			return
 		}
-		if !c02HasOpen(p, h, 0, map[*ssa.Function]bool{}) {
-			return
+		h := staticCallee(call)
+		var lex *c02SegCtx
+		if h == nil {
+			// a call of a function value: a callback this function was given, or a local closure
+			h = c02CalledFunc(p, ctx, call)
+			if h == nil || !p.InModule(h) || len(h.Blocks) == 0 || !c02HasOpen(p, h, 0, map[*ssa.Function]bool{}) {
+				return
+			}
+		} else {
+			if !p.InModule(h) || len(h.Blocks) == 0 || !c02HasOpenAt(p, call) {
+				return
+			}
+		}
+		if h.Parent() != nil {
+			// a closure: its captured variables belong to the function it is written in
+			for c := ctx; c != nil; c = c.parent {
+				if c.fn == h.Parent() && lex == nil {
+					lex = c
+				}
+			}
 		}
 		// an authenticating helper
 		sig := call.Call.Signature()
@@ -240,23 +364,23 @@ func c02CheckSegFn(p *Prog, r *Report, ctx *c02SegCtx, rootName string) {
 			undecided("%s: authentication is nested more than three helpers deep (%s); not followed", name, FuncName(p, h))
 		}
 		c02LabelHelper(p, h, "authenticating helper")
-		sub := &c02SegCtx{fn: h, parent: ctx, call: call, depth: ctx.depth + 1}
+		sub := &c02SegCtx{fn: h, parent: ctx, call: call, lex: lex, depth: ctx.depth + 1}
 		for j, a := range call.Call.Args {
 			if j >= len(h.Params) {
 				break
 			}
 			switch {
-			case ctx.data != nil && c02SliceBase(a) == ctx.data && c02IsByteSlice(a.Type()):
-				if !c02WholeSlice(a, ctx.data) {
+			case c02IsByteSlice(a.Type()) && c02RoleOf(ctx, c02SliceBase(a)) == "data":
+				if !c02WholeSlice(a, c02SliceBase(a)) {
 					r.Violation("C02.T1-open-input", name+" segment handed to "+c02Name(p, h), p.Pos(call.Pos()),
 						"only a part of the segment is handed to the helper that authenticates it: the bytes that are released are not the bytes that were authenticated")
 				}
 				sub.data = h.Params[j]
-			case ctx.num != nil && a == ctx.num:
+			case c02RoleOf(ctx, a) == "num":
 				sub.num = h.Params[j]
-			case ctx.last != nil && a == ctx.last:
+			case c02RoleOf(ctx, a) == "last":
 				sub.last = h.Params[j]
-			case ctx.out != nil && a == ctx.out:
+			case c02RoleOf(ctx, a) == "out":
 				sub.out = h.Params[j]
 			}
 		}
@@ -327,9 +451,46 @@ func c02CheckSegFn(p *Prog, r *Report, ctx *c02SegCtx, rootName string) {
 	}
 
 	// every use of out
+	var outVals []ssa.Value
 	if ctx.out != nil {
+		outVals = append(outVals, ctx.out)
+	}
+	allInstrs(fn, func(in ssa.Instruction) {
+		if v, ok := in.(ssa.Value); ok && v != ctx.out && c02IsIOWriter(v.Type()) && c02RoleOf(ctx, v) == "out" {
+			outVals = append(outVals, v)
+		}
+	})
+	if len(outVals) > 0 {
 		nUses := 0
-		for _, rr := range refs(ctx.out) {
+		var outRefs []ssa.Instruction
+		for _, ov := range outVals {
+			for _, rr := range refs(ov) {
+				// keeping the writer in a variable (a parameter captured by a closure) releases nothing
+				if st, ok := rr.(*ssa.Store); ok && st.Val == ov {
+					if _, isCell := st.Addr.(*ssa.Alloc); isCell {
+						continue
+					}
+				}
+				// the nil check that precedes taking a method value of an interface: not a release
+				if ta, ok := rr.(*ssa.TypeAssert); ok && c02IsIOWriter(ta.AssertedType) {
+					for _, r2 := range refs(ta) {
+						outRefs = append(outRefs, r2)
+					}
+					continue
+				}
+				// a method value of the writer (write := out.Write): creating it releases nothing, calling it does
+				if mc, ok := rr.(*ssa.MakeClosure); ok {
+					if f, isF := mc.Fn.(*ssa.Function); isF && f.Synthetic != "" {
+						for _, r2 := range refs(mc) {
+							outRefs = append(outRefs, r2)
+						}
+						continue
+					}
+				}
+				outRefs = append(outRefs, rr)
+			}
+		}
+		for _, rr := range outRefs {
 			if _, ok := rr.(*ssa.DebugRef); ok {
 				continue
 			}
@@ -345,19 +506,47 @@ func c02CheckSegFn(p *Prog, r *Report, ctx *c02SegCtx, rootName string) {
 			}
 			nUses++
 			what := "use of the output writer"
-			if call, ok := rr.(*ssa.Call); ok && call.Call.IsInvoke() && call.Call.Value == ctx.out {
+			isOutVal := func(v ssa.Value) bool {
+				for _, ov := range outVals {
+					if v == ov {
+						return true
+					}
+				}
+				return false
+			}
+			if call, ok := rr.(*ssa.Call); ok && call.Call.IsInvoke() && isOutVal(call.Call.Value) {
 				what = "out." + call.Call.Method.Name()
 			}
 			construct := fmt.Sprintf("%s %s", name, what)
 			r.Check(verified(rr.Block(), instrIndex(rr)), "C02.T1-verify-before-release", construct, p.Pos(instrPos(rr)),
 				"reached only after the segment was authenticated (AEAD.Open returned a nil error)",
 				"the output writer is used on a path on which AEAD.Open has not (yet) succeeded: bytes of an unauthenticated segment reach the reader (a flipped bit or a spliced segment is released before — or without — the error)")
-			if call, ok := rr.(*ssa.Call); ok && call.Call.IsInvoke() && call.Call.Value == ctx.out && call.Call.Method.Name() == "Write" && len(call.Call.Args) == 1 {
+			isWrite := false
+			if call, ok := rr.(*ssa.Call); ok && len(call.Call.Args) == 1 {
+				if call.Call.IsInvoke() && isOutVal(call.Call.Value) && call.Call.Method.Name() == "Write" {
+					isWrite = true
+				}
+				if mc, isMC := call.Call.Value.(*ssa.MakeClosure); isMC && !call.Call.IsInvoke() {
+					if f, isF := mc.Fn.(*ssa.Function); isF && f.Synthetic != "" && f.Object() != nil && f.Object().Name() == "Write" {
+						isWrite = true
+						what = "out.Write"
+					}
+				}
+			}
+			if call, ok := rr.(*ssa.Call); ok && isWrite {
 				base := c02SliceBase(call.Call.Args[0])
 				okDep := false
 				for oi, o := range opens {
 					if openRes[oi] != nil && c02Carries(base, openRes[oi]) {
 						okDep = true
+					}
+					// through a variable kept in memory (a captured or address-taken variable): the plaintext was stored into it before
+					if u, isLoad := base.(*ssa.UnOp); isLoad && u.Op == token.MUL && openRes[oi] != nil {
+						for _, sr := range refs(u.X) {
+							if st, ok := sr.(*ssa.Store); ok && st.Addr == u.X && c02Carries(c02SliceBase(st.Val), openRes[oi]) && instrDominates(st, u) {
+								okDep = true
+							}
+						}
 					}
 					// in-place decryption: dst of Open shares its base with the written slice
 					if events[oi].direct && len(o.Call.Args) >= 1 && c02SliceBase(o.Call.Args[0]) == base {
@@ -391,10 +580,10 @@ func c02CheckSegFn(p *Prog, r *Report, ctx *c02SegCtx, rootName string) {
 		}
 		o := ev.call
 		args := o.Call.Args
-		if ctx.data == nil {
+		if ctx.data == nil && ctx.lex == nil {
 			r.Undecide("%s: the segment does not reach %s as a plain parameter; whether Open authenticates the whole segment cannot be followed", rootName, name)
 		} else {
-			okIn := len(args) >= 3 && c02WholeSlice(args[2], ctx.data)
+			okIn := len(args) >= 3 && c02RoleOf(ctx, c02SliceBase(args[2])) == "data" && c02WholeSlice(args[2], c02SliceBase(args[2]))
 			r.Check(okIn, "C02.T1-open-input", name+" AEAD.Open ciphertext", p.Pos(o.Pos()),
 				"Open is given the whole segment parameter",
 				"AEAD.Open is not given the (whole) segment it was handed: the bytes that are released are not the bytes that were authenticated")
@@ -487,6 +676,42 @@ func c02DepsRoles(p *Prog, ctx *c02SegCtx, v ssa.Value, depth int) (hasNum, hasL
 		return false, false, false
 	}
 	known = true
+	// a captured variable of the enclosing function (or a variable kept in a cell): what was stored into it
+	if u, ok := c02SliceBase(v).(*ssa.UnOp); ok && u.Op == token.MUL {
+		var cell ssa.Value
+		owner := ctx
+		switch a := u.X.(type) {
+		case *ssa.FreeVar:
+			if ctx.lex != nil {
+				cell, owner = resolveFreeVar(a), ctx.lex
+			}
+		case *ssa.Alloc:
+			cell = a
+		}
+		if al, ok := cell.(*ssa.Alloc); ok {
+			n := 0
+			for _, rr := range refs(al) {
+				if st, ok := rr.(*ssa.Store); ok && st.Addr == ssa.Value(al) && st.Parent() == owner.fn {
+					switch c02RoleOf(owner, st.Val) {
+					case "num":
+						hasNum = true
+						n++
+						continue
+					case "last":
+						hasLast = true
+						n++
+						continue
+					}
+					hn, hl, k := c02DepsRoles(p, owner, st.Val, depth+1)
+					hasNum, hasLast, known = hasNum || hn, hasLast || hl, known && k
+					n++
+				}
+			}
+			if n > 0 {
+				return
+			}
+		}
+	}
 	deps := c02ValueDeps(p, v, 3)
 	for i := range deps {
 		if i >= len(ctx.fn.Params) {
@@ -635,6 +860,35 @@ func c02TraceNonce(p *Prog, r *Report, rootName string, ctx *c02SegCtx, v ssa.Va
 		if n == 0 {
 			r.Undecide("%s: %s never returns a nonce; not followed", rootName, FuncName(p, g))
 		}
+	case *ssa.UnOp:
+		// a variable of the enclosing function captured by this closure, or a variable kept in a cell: follow the value stored into it
+		if x.Op == token.MUL {
+			var cell ssa.Value
+			owner := ctx
+			switch a := x.X.(type) {
+			case *ssa.FreeVar:
+				if ctx.lex != nil {
+					cell, owner = resolveFreeVar(a), ctx.lex
+				}
+			case *ssa.Alloc:
+				cell = a
+			}
+			if al, ok := cell.(*ssa.Alloc); ok {
+				var stored []ssa.Value
+				for _, rr := range refs(al) {
+					if st, ok := rr.(*ssa.Store); ok && st.Addr == ssa.Value(al) && st.Parent() == owner.fn {
+						stored = append(stored, st.Val)
+					}
+				}
+				if len(stored) > 0 {
+					for _, sv := range stored {
+						c02TraceNonce(p, r, rootName, owner, sv, depth+1)
+					}
+					return
+				}
+			}
+		}
+		r.Undecide("%s: the nonce handed to AEAD.Open in %s is read from memory that cannot be followed; its layout cannot be classified", rootName, FuncName(p, fn))
 	default:
 		r.Undecide("%s: the nonce handed to AEAD.Open in %s is neither built in a local buffer nor obtained from a same-package function (%T); its layout cannot be classified", rootName, FuncName(p, fn), base)
 	}
@@ -861,6 +1115,14 @@ func c02CheckProcessSegments(p *Prog, r *Report, fn *ssa.Function) {
 		sum  c02PipeSummary
 	}
 	var closeHelpers []closeHelper
+	var boundCloses []*ssa.Call
+	var boundDeferred []*ssa.Defer
+	boundClose := func(cc *ssa.CallCommon) string {
+		if cc.IsInvoke() {
+			return ""
+		}
+		return c02BoundPipeClose(c02Origin(cc.Value))
+	}
 	allInstrs(fn, func(in ssa.Instruction) {
 		switch x := in.(type) {
 		case *ssa.Call:
@@ -876,6 +1138,12 @@ func c02CheckProcessSegments(p *Prog, r *Report, fn *ssa.Function) {
 				L.readFull = true
 			case isPipeClose:
 				L.closes = append(L.closes, x)
+			case c02BoundRead(cc):
+				// in.Read kept as a method value (read := in.Read) and called through it
+				L.reads = append(L.reads, x)
+			case boundClose(cc) != "":
+				// out.Close / out.CloseWithError kept as a method value (abort := out.CloseWithError) and called through it
+				boundCloses = append(boundCloses, x)
 			default:
 				// any other call that receives the pipe or the source
 				hasPipe, hasSrc := false, false
@@ -937,6 +1205,10 @@ func c02CheckProcessSegments(p *Prog, r *Report, fn *ssa.Function) {
 				L.deferred = append(L.deferred, x)
 				return
 			}
+			if boundClose(cc) != "" {
+				boundDeferred = append(boundDeferred, x)
+				return
+			}
 			for _, a := range cc.Args {
 				if c02IsPipeWriter(a.Type()) {
 					undecided("%s defers a call that receives the pipe writer (%s); the close discipline cannot be followed there", L.name, cc.Value.Name())
@@ -949,6 +1221,9 @@ func c02CheckProcessSegments(p *Prog, r *Report, fn *ssa.Function) {
 				}
 			}
 		case *ssa.MakeClosure:
+			if c02BoundPipeClose(x) != "" {
+				return // a method value of the pipe's Close/CloseWithError: its calls are close events
+			}
 			for _, b := range x.Bindings {
 				t := b.Type()
 				if pt, ok := t.Underlying().(*types.Pointer); ok {
@@ -1026,6 +1301,26 @@ func c02CheckProcessSegments(p *Prog, r *Report, fn *ssa.Function) {
 	}
 	for _, d := range L.deferred {
 		classify(d, d.Common())
+	}
+	for _, bc := range boundCloses {
+		L.closes = append(L.closes, bc)
+		nm := boundClose(bc.Common())
+		L.closeName[bc] = nm
+		if nm == "Close" || len(bc.Call.Args) == 0 {
+			classifyArg(bc, nil)
+		} else {
+			classifyArg(bc, bc.Call.Args[0])
+		}
+	}
+	for _, bd := range boundDeferred {
+		L.deferred = append(L.deferred, bd)
+		nm := boundClose(bd.Common())
+		L.closeName[bd] = nm
+		if nm == "Close" || len(bd.Call.Args) == 0 {
+			classifyArg(bd, nil)
+		} else {
+			classifyArg(bd, bd.Call.Args[0])
+		}
 	}
 	for _, ch := range closeHelpers {
 		L.closes = append(L.closes, ch.call)
@@ -2659,4 +2954,49 @@ func c02IsOutcomeExpr(e ssa.Value, errs []ssa.Value) bool {
 		return false
 	}
 	return c02CarriesAny(x, errs) && (bo.Op == token.EQL) != neg
+}
+
+// c02BoundPipeClose: v is the method value pipe.Close / pipe.CloseWithError
+// (a bound-method closure over an *io.PipeWriter); returns the method name.
+func c02BoundPipeClose(v ssa.Value) string {
+	mc, ok := v.(*ssa.MakeClosure)
+	if !ok || len(mc.Bindings) != 1 || !c02IsPipeWriter(mc.Bindings[0].Type()) {
+		return ""
+	}
+	f, ok := mc.Fn.(*ssa.Function)
+	if !ok || f.Synthetic == "" {
+		return ""
+	}
+	obj, ok := f.Object().(*types.Func)
+	if !ok {
+		return ""
+	}
+	for _, n := range []string{"Close", "CloseWithError"} {
+		if funcIs(obj, "io", "PipeWriter", n) {
+			return n
+		}
+	}
+	return ""
+}
+
+// c02BoundRead: the call goes through the method value reader.Read of a
+// reader the function was given (read := in.Read).
+func c02BoundRead(cc *ssa.CallCommon) bool {
+	if cc.IsInvoke() {
+		return false
+	}
+	mc, ok := c02Origin(cc.Value).(*ssa.MakeClosure)
+	if !ok || len(mc.Bindings) != 1 {
+		return false
+	}
+	f, ok := mc.Fn.(*ssa.Function)
+	if !ok || f.Synthetic == "" {
+		return false
+	}
+	obj, ok := f.Object().(*types.Func)
+	if !ok || obj.Name() != "Read" {
+		return false
+	}
+	b := mc.Bindings[0]
+	return c02IsIOReader(b.Type()) && c02GivenReader(b, 0)
 }
